@@ -1,4 +1,5 @@
 """C19 — PRNG has full period; distributions stay in range for every state."""
+import json
 import os
 
 import vf
@@ -26,6 +27,28 @@ def run(tier):
         raise vf.ToolError("period theorem false on the specification: %s" % theorems)
     cases = os.path.join(d, "cases.ndjson")
     vf.run_harness(binpath, ["rand", "gen", "--seed", vf.seed(), "--tier", tier], stdout_path=cases)
+    # "hard" states for the rejection samplers: states from which many candidates in a row are
+    # rejected.  The committed corpus (found by a long search of the same driver) plus a fresh
+    # search (quick: 1.5 s, thorough: 100 s on all cores); the samples drawn from them are judged
+    # like any other (inside the disk / ball).
+    hard = os.path.join(d, "hard.ndjson")
+    budget = ["1500", "8"] if tier == "quick" else ["100000", "16"]
+    vf.run_harness(binpath, ["rand", "gen", "--seed", vf.seed(), "hard"] + budget, stdout_path=hard)
+    corpus = os.path.join(vf.VERIF, "corpus", "rand_hard.ndjson")
+    nh = 0
+    maxtries = {"ball": 0, "disk": 0}
+    with open(cases, "a") as f:
+        for src in (corpus, hard):
+            if not os.path.exists(src):
+                continue
+            for ln in open(src):
+                h = json.loads(ln)
+                maxtries[h["dist"]] = max(maxtries[h["dist"]], h["tries"])
+                for dist in ([h["dist"], "p" + h["dist"]]):
+                    f.write(json.dumps({"k": "h%s-%d" % (vf.seed(), nh), "op": "norm", "s": h["s"], "dist": dist, "kind": "in",
+                                        "tries": h["tries"]}, separators=(",", ":")) + "\n")
+                    nh += 1
+    chk.cov["hard_states"] = {"cases": nh, "longest_rejection_run": maxtries}
     vf.exec_and_validate(chk, binpath, "rand", "TV_Rand", cases, jvms=8, what="observation")
     chk.cov["distinct_nontrivial"] = chk.cov["traces_validated_against_impl"]
     chk.cov["rule"] = ("TLC: order of the step matrix over GF(2) (T^(2^64)=T, T^((2^64-1)/p)#I for the 7 prime factors, "
